@@ -214,3 +214,58 @@ func VH_C11_pipelined_client_field_index() {
 	c.SendCall(context.Background(), Send{})
 	vAssert(h1.sends == 1 && h0.sends == 0, "C11.field.client-refers-to-the-requested-field")
 }
+
+// ---- two goroutines (vPar: every interleaving of their synchronisation operations) ----
+
+// a pipelined call races with the resolution: it is delivered exactly once - to the pipeline
+// caller if it got there first, otherwise it is resolved against the result
+func VH_C11_par_fulfill_vs_pipeline() {
+	vc := &vCaller{}
+	p := NewPromise(Method{}, vc)
+	var ans *Answer
+	vPar(func() {
+		p.Fulfill(Ptr{})
+	}, func() {
+		ans, _ = p.Answer().PipelineSend(context.Background(), nil, Send{})
+	})
+	vReach("joined")
+	vAssert(vLocksHeld() == 0, "C11.par.pipeline.no-lock-held")
+	vAssert(vc.sends <= 1, "C11.par.pipeline.delivered-at-most-once-to-caller")
+	vAssert(ans != nil, "C11.par.pipeline.answered")
+	vAssert(vIsClosed(p.Answer().Done()), "C11.par.pipeline.resolved")
+	vAssert(p.ongoingCalls == 0, "C11.par.pipeline.ongoing-calls-balanced")
+}
+
+// asking for the pipelined client races with the resolution
+func VH_C11_par_fulfill_vs_client() {
+	p := NewPromise(Method{}, &vCaller{})
+	var c *Client
+	vPar(func() {
+		p.Fulfill(Ptr{})
+	}, func() {
+		c = p.Answer().Client()
+	})
+	vReach("joined")
+	vAssert(vLocksHeld() == 0, "C11.par.client.no-lock-held")
+	vAssert(vIsClosed(p.Answer().Done()), "C11.par.client.resolved")
+	// whichever came first, the client now refers to the resolution (null -> calls fail)
+	a, _ := c.SendCall(context.Background(), Send{})
+	_, err := a.Struct()
+	vAssert(err != nil, "C11.par.client.refers-to-resolution")
+	p.ReleaseClients()
+	vAssert(vLocksHeld() == 0, "C11.par.client.release.no-lock-held")
+}
+
+// Join races with the parent's resolution
+func VH_C11_par_join_vs_fulfill() {
+	p1 := NewPromise(Method{}, &vCaller{})
+	p2 := NewPromise(Method{}, &vCaller{})
+	vPar(func() {
+		p1.Fulfill(Ptr{})
+	}, func() {
+		p2.Join(p1.Answer())
+	})
+	vReach("joined")
+	vAssert(vLocksHeld() == 0, "C11.par.join.no-lock-held")
+	vAssert(vIsClosed(p1.Answer().Done()) && vIsClosed(p2.Answer().Done()), "C11.par.join.both-resolved")
+}
